@@ -482,7 +482,8 @@ def run_case(case: dict) -> dict:
             raise OutOfDomain("prologue/epilogue bytes depend on their context")
         parts, text = decode(t, data, sx, (len(pdata), len(data) - len(edata)))
         tr["pro"], tr["body"], tr["epi"] = parts
-        tr["text"] = text
+        if os.environ.get("VERIF_DEBUG"):
+            tr["text"] = text          # disassembly, for humans only
         tr["stage"] = "done"
     except OutOfDomain as e:
         tr["ood"] = True
